@@ -29,6 +29,7 @@ func init() {
 			{"C01/typestate", "every (state, packet type, path) of the loop agrees with the MS-TSGU phase table", c01Typestate},
 			{"C01/dial-owner", "the only first-party network dials are the one in Process, the KDC proxy's and the unix-socket dials of the auth client", c01DialOwner},
 			{"C01/wiring", "main stores CheckHost on every path before registering the gateway handler; CheckPAACookie and the session wrapper under the token-auth switch", func(c *Ctx) { wiringRule(c, "C01/wiring") }},
+			{"C01/legacy-claim", "the legacy IN leg claims the tunnel (stores transportIn) before any I/O on the new connection, so a second IN request for the same connection id cannot start a second packet loop", c01LegacyClaim},
 		},
 	})
 }
@@ -685,6 +686,114 @@ func reachFromWithoutMarkerAvoiding(start *ssa.BasicBlock, target ssa.Instructio
 				continue
 			}
 			work = append(work, st{succ, b})
+		}
+	}
+	return false
+}
+
+// c01LegacyClaim: one packet loop (one ordered phase sequence, at most one backend connection) per
+// tunnel. On the legacy transport the IN request finds the tunnel in the cache and starts the loop
+// only if no IN leg is attached yet (transportIn == nil). Between that test and the store that
+// attaches the leg there must be no call that blocks on the network (sending the accept, draining the
+// client's first bytes): otherwise a second IN request with the same connection id passes the same
+// test and runs a second Processor, in its initial state, on the same tunnel.
+func c01LegacyClaim(c *Ctx) {
+	rule := "C01/legacy-claim"
+	inF := c.FieldVar("cmd/rdpgw/protocol", "Tunnel", "transportIn")
+	n := 0
+	for _, fn := range c.allFirstPartyFuncs() {
+		if !c.Reachable()[fn] {
+			continue
+		}
+		for _, np := range callsTo(fn, protoPkg+".NewProcessor") {
+			tv := strip(arg(np, 1))
+			// stores attaching an IN leg to this tunnel in fn
+			var stores []*ssa.Store
+			eachInstr(fn, func(in ssa.Instruction) {
+				if s, ok := in.(*ssa.Store); ok {
+					if b, f, ok := fieldOfAddr(s.Addr); ok && f == inF && strip(b) == tv && !isNil(s.Val) {
+						stores = append(stores, s)
+					}
+				}
+			})
+			// nil tests of transportIn of this tunnel
+			isIn := func(v ssa.Value) bool {
+				b, f, ok := fieldLoad(strip(v))
+				return ok && f == inF && strip(b) == tv
+			}
+			tested := false
+			for _, b := range fn.Blocks {
+				if len(b.Instrs) == 0 {
+					continue
+				}
+				ifi, ok := b.Instrs[len(b.Instrs)-1].(*ssa.If)
+				if !ok {
+					continue
+				}
+				for i, succ := range b.Succs {
+					if !GEq(isIn, anyNil)(ifi.Cond, i == 0) {
+						continue
+					}
+					tested = true
+					n++
+					// from the "no IN leg yet" edge: every path reaches a claiming store before any network call
+					bad := ""
+					seen := map[*ssa.BasicBlock]bool{}
+					var walk func(bb *ssa.BasicBlock)
+					walk = func(bb *ssa.BasicBlock) {
+						if seen[bb] || bad != "" {
+							return
+						}
+						seen[bb] = true
+						for _, in := range bb.Instrs {
+							if s, ok := in.(*ssa.Store); ok {
+								for _, st := range stores {
+									if s == st {
+										return // claimed
+									}
+								}
+							}
+							if ci, ok := in.(ssa.CallInstruction); ok && blocksOnNetwork(ci) {
+								bad = calleeName(ci) + " at " + c.P.Pos(ci.Pos())
+								return
+							}
+							if in == np.(ssa.Instruction) {
+								bad = "the packet loop is set up without attaching the IN leg"
+								return
+							}
+						}
+						for _, s2 := range bb.Succs {
+							walk(s2)
+						}
+					}
+					walk(succ)
+					c.Check(bad == "" && len(stores) > 0, rule, "claim in "+shortFn(fn)+"#"+itoa(n), ifi.Pos(), "after 'no IN leg yet' the leg is attached before any call that waits on the client", "between the transportIn == nil test and the store that attaches the IN leg there is "+bad+": a second RDG_IN_DATA request for the same connection id passes the same test meanwhile and starts a second packet loop (state INITIALIZED, its own backend dial) on the tunnel")
+				}
+			}
+			_ = tested // a handler that attaches its leg unconditionally (websocket: the tunnel is not shared through the cache by a second request of this kind) has no claim to check
+		}
+	}
+	c.Floor(rule, 1, "legacy IN branch")
+}
+
+// blocksOnNetwork: a call that can wait on the peer: methods of the transport package, of net.Conn /
+// bufio / io readers and writers, and first-party functions that (directly) make such calls.
+func blocksOnNetwork(ci ssa.CallInstruction) bool {
+	name := calleeName(ci)
+	if strings.HasPrefix(name, "(*"+transportPkg+".") && !strings.HasSuffix(name, ").Close") {
+		return true
+	}
+	cc := ci.Common()
+	if cc.IsInvoke() {
+		switch cc.Method.Name() {
+		case "Read", "Write", "ReadPacket", "WritePacket", "ReadMessage", "WriteMessage", "Flush":
+			return true
+		}
+		return false
+	}
+	for _, p := range []string{"(*bufio.", "(*net.", "io.Read", "io.Copy", "(*net/http.", "time.Sleep"} {
+		if strings.HasPrefix(name, p) {
+			return true
 		}
 	}
 	return false
